@@ -13,9 +13,9 @@ def demuxSingle : List (Nat × String × List String × List (String × List Str
   (0, "plain", ["a", "b", "unknown"], [("p1", ["a"]), ("p2", ["b"]), ("p3", ["unknown"]), ("p0", ["unknown"])]),
   (0, "discard", ["a", "b"], [("p1", ["a"]), ("p2", ["b"]), ("p3", []), ("p0", [])]),
   (0, "untrimmed", ["a", "b", "<untrimmed>"], [("p1", ["a"]), ("p2", ["b"]), ("p3", ["<untrimmed>"]), ("p0", ["<untrimmed>"])]),
-  (1, "plain", ["a", "unknown"], [("p1", ["a"]), ("p2", ["unknown"]), ("p3", ["unknown"]), ("p0", ["unknown"])]),
-  (1, "discard", ["a"], [("p1", ["a"]), ("p2", []), ("p3", []), ("p0", [])]),
-  (1, "untrimmed", ["a", "<untrimmed>"], [("p1", ["a"]), ("p2", ["<untrimmed>"]), ("p3", ["<untrimmed>"]), ("p0", ["<untrimmed>"])]),
+  (1, "plain", ["a", "b", "unknown"], [("p1", ["a"]), ("p2", ["unknown"]), ("p3", ["unknown"]), ("p0", ["unknown"])]),
+  (1, "discard", ["a", "b"], [("p1", ["a"]), ("p2", []), ("p3", []), ("p0", [])]),
+  (1, "untrimmed", ["a", "b", "<untrimmed>"], [("p1", ["a"]), ("p2", ["<untrimmed>"]), ("p3", ["<untrimmed>"]), ("p0", ["<untrimmed>"])]),
   (2, "plain", ["a", "unknown"], [("p1", ["a"]), ("p2", ["a"]), ("p3", ["unknown"]), ("p0", ["unknown"])]),
   (2, "discard", ["a"], [("p1", ["a"]), ("p2", ["a"]), ("p3", []), ("p0", [])]),
   (2, "untrimmed", ["a", "<untrimmed>"], [("p1", ["a"]), ("p2", ["a"]), ("p3", ["<untrimmed>"]), ("p0", ["<untrimmed>"])]),
